@@ -394,6 +394,21 @@ func init() {
 		}
 		return math.Float64frombits(a[0].(uint64))
 	}
+	// go1.26 internal/strconv reinterprets bits through unsafe pointers (deps.go); same semantics as package math
+	externals["internal/strconv.float64frombits"] = externals["math.Float64frombits"]
+	externals["internal/strconv.float64bits"] = externals["math.Float64bits"]
+	externals["internal/strconv.float32frombits"] = func(fr *frame, a []value) value {
+		if _, ok := a[0].(*Sym); ok {
+			panic(abort{kind: "unsupported", msg: "float32frombits on symbolic bits"})
+		}
+		return math.Float32frombits(a[0].(uint32))
+	}
+	externals["internal/strconv.float32bits"] = func(fr *frame, a []value) value {
+		if _, ok := a[0].(*Sym); ok {
+			panic(abort{kind: "unsupported", msg: "float32bits on symbolic float"})
+		}
+		return math.Float32bits(a[0].(float32))
+	}
 	initSyncExternals()
 	initFmtExternals()
 }
